@@ -187,7 +187,13 @@ func safeRun(e *entry, c interface{}, o *Obs) (err error) {
 			err = fmt.Errorf("panic in check: %v\n%s", r, debug.Stack())
 		}
 	}()
-	return e.runCase(c, o)
+	err = e.runCase(c, o)
+	if err != nil && strings.HasPrefix(err.Error(), "harness:") {
+		// a problem of the harness itself (temp dir, child process, rlimit): never a verdict
+		fmt.Println("INFRASTRUCTURE (no verdict):", err)
+		os.Exit(3)
+	}
+	return err
 }
 
 func caseHash(c interface{}) uint64 {
